@@ -142,6 +142,8 @@ class Interp:
             return StrV({v})
         if isinstance(v, e1.EnumVal):
             return EnumV(v.cls, {v.name})
+        if isinstance(v, e1.NTValue):
+            return NamedTupleV([self.lift(x) for x in v], v.names, v.cls)
         if isinstance(v, (tuple, list)):
             return TupleV([self.lift(x) for x in v], is_list=isinstance(v, list))
         if isinstance(v, dict):
@@ -471,6 +473,18 @@ class Interp:
         return out
 
     def getattr_(self, st, base, attr, node, default=None):
+        if isinstance(base, GroupDictV) and attr == "get":
+            return [(st, ExtV("groupdict.get", bound=base))]
+        if isinstance(base, NamedTupleV):
+            if attr in base.names:
+                return [(st, base.items[base.names.index(attr)])]
+            for st_ in base.cref.node.body:
+                if isinstance(st_, ast.FunctionDef) and st_.name == attr:
+                    fv = FuncV(base.cref.mod, st_, bound_self=base)
+                    if any(isinstance(d, ast.Name) and d.id == "property" for d in st_.decorator_list):
+                        return [(s, oc[1]) for s, oc in self.call_func(fv, [], {}, st, node)]
+                    return [(st, fv)]
+            return [(st, self.undecided(st, node, "attribute {} of a NamedTuple value".format(attr)))]
         if isinstance(base, RefV):
             obj = st.heap[base.oid]
             if attr in obj.attrs:
